@@ -498,6 +498,11 @@ namespace bxdecay0 {
     _grab_bb_params_().reset();
     if (_decay_category_ == DECAY_CATEGORY_DBD) {
 
+      if (!dbd_supports_esum_range(_decay_dbd_mode_) && (!std::isnan(_energy_min_) || !std::isnan(_energy_max_))) {
+        throw std::logic_error("bxdecay0::decay0_generator::_init_: DBD mode '" + dbd_mode_label(_decay_dbd_mode_)
+                               + "' does not support an energy sum range !");
+      }
+
       if ((_decay_dbd_mode_ == DBDMODE_2NUBB_GA_G0)
           or (_decay_dbd_mode_ == DBDMODE_2NUBB_GA_G2)
           or (_decay_dbd_mode_ == DBDMODE_2NUBB_GA_G22)
